@@ -438,6 +438,15 @@ def run_property(pid, res, proofs_ok, proofs_why, extra_part=None):
         scheds.append(gen_schedule(rng, kind)); tags.append(kind)
     for i in range(n // 5):
         scheds.append(gen_wrap(rng)); tags.append("wrap/skip/crash-at-wrap")
+    # one snapshot() call interleaved with two updates in six bursts (writer, reader, writer, reader, ...):
+    # the update begins between two loads of the call and ends between two later ones
+    for i in range(n // 5):
+        a, b = rng.randrange(0, 12), rng.choice([2, 3, 4, 9, 10, 11, 12])
+        c2, d = rng.choice([1, 2, 3, 9, 10, 11]), rng.randrange(1, 14)
+        e = rng.choice([1, 2, 8, 9, 11, 12])
+        scheds.append([("W",)] * 11 + [("N",)] + [("W",)] * a + [("R", 0, None)] * b + [("W",)] * c2 + [("R", 0, None)] * d
+                      + [("W",)] * e + [("R", 0, None)] * 40 + [("W",)] * 11 + [("R", 0, None)] * 13)
+        tags.append("six-bursts")
     lines = [line_of(cfg, s) for s in scheds]
     impl = c.run_lines(binary, lines, timeout=1800)
     model = c.run_model(lines, timeout=1800)
